@@ -548,4 +548,102 @@ theorem serialize_created (env : Env) (ty : AcctType) (k : Key) (enc : List Nat)
     subst he
     unfold createdData; cases ty.kind <;> simp
 
+
+/-- `serialize()` of exactly what decode read is the identity on the world. -/
+theorem serialize_decoded_identity (env : Env) (ty : AcctType) (k : Key) (w : World) :
+    serializeBorsh env ty k (some ((w k).data.drop ty.W)) w = w := by
+  unfold serializeBorsh
+  simp only []
+  split
+  · funext k'
+    by_cases hk : k' = k
+    · subst hk; simp [List.take_append_drop]
+    · rw [set_other _ _ hk]
+  · rfl
+
+/-- On an initialized target (not System-owned, or carrying data) `system_create_account` never
+changes the target's owner or data, whatever it returns (a shortfall transfer may have happened). -/
+theorem systemCreateAccount_initialized_keeps (env : Env) (f : Funder) (tgt owner : Key) (space : Nat)
+    (a : Option (List (List Nat))) (s : St)
+    (hinit : (s.w tgt).owner ≠ systemId ∨ (s.w tgt).data ≠ []) :
+    ((systemCreateAccount env f tgt owner space a s).2.w tgt).owner = (s.w tgt).owner ∧
+    ((systemCreateAccount env f tgt owner space a s).2.w tgt).data = (s.w tgt).data := by
+  have notalloc : ∀ (s1 : St) (c : Cpi), c.ix = .allocate tgt space →
+      (s1.w tgt).owner = (s.w tgt).owner → (s1.w tgt).data = (s.w tgt).data →
+      (invoke env c s1).1 ≠ .ok () ∧ (invoke env c s1).2.w = s1.w := by
+    intro s1 c hc ho hd
+    rcases invoke_world env c s1 with h | ⟨h1, h2⟩
+    · exact h
+    · rw [hc] at h2
+      simp only [sys] at h2
+      obtain ⟨-, hd', ho', -⟩ := allocate_ok h2
+      rcases hinit with h | h
+      · exact absurd (ho ▸ ho') h
+      · exact absurd (hd ▸ hd') h
+  unfold systemCreateAccount
+  simp only []
+  split
+  · rcases invoke_world env ⟨.createAccount f.key tgt (env.rentMin space) space owner, f.seeds.toList ++ a.toList⟩ s with ⟨_, hw⟩ | ⟨_, h2⟩
+    · rw [hw]; exact ⟨rfl, rfl⟩
+    · simp only [sys, createAccount] at h2
+      split at h2; · cases h2
+      split at h2; · cases h2
+      rename_i w1 h1
+      obtain ⟨-, hd', ho', -⟩ := allocate_ok h1
+      rcases hinit with h | h
+      · exact absurd ho' h
+      · exact absurd hd' h
+  · have h1 : ∀ r1 : Res Unit × St,
+        r1 = (if max (env.rentMin space) 1 - (s.w tgt).lamports > 0 then
+          fundRent env f tgt (max (env.rentMin space) 1 - (s.w tgt).lamports) s else (Res.ok (), s)) →
+        (r1.2.w tgt).owner = (s.w tgt).owner ∧ (r1.2.w tgt).data = (s.w tgt).data := by
+      intro r1 hr
+      rw [hr]
+      split
+      · unfold fundRent
+        rcases invoke_world env ⟨.transfer f.key tgt (max (env.rentMin space) 1 - (s.w tgt).lamports), f.seeds.toList⟩ s with ⟨_, hw⟩ | ⟨_, h2⟩
+        · rw [hw]; exact ⟨rfl, rfl⟩
+        · simp only [sys] at h2
+          obtain ⟨e, -, -, -⟩ := transfer_ok h2
+          rw [e, move_owner, move_data]; exact ⟨rfl, rfl⟩
+      · exact ⟨rfl, rfl⟩
+    generalize hr1 : (if max (env.rentMin space) 1 - (s.w tgt).lamports > 0 then
+          fundRent env f tgt (max (env.rentMin space) 1 - (s.w tgt).lamports) s else (Res.ok (), s)) = r1
+    have k1 := h1 r1 hr1.symm
+    split
+    · rename_i s1
+      simp only [] at k1
+      obtain ⟨hno, hw⟩ := notalloc s1 { ix := .allocate tgt space, seeds := a.toList } rfl k1.1 k1.2
+      split
+      · rename_i s2 he
+        exact absurd (by rw [he]) hno
+      · rw [hw]; exact k1
+    · exact k1
+
+/-- A failed (or any) `Create` on an initialized target leaves the target's owner and data alone. -/
+theorem initValidate_initialized_keeps (env : Env) (ty : AcctType) (tgt : Target) (fa : FunderArg)
+    (enc : List Nat) (s : St)
+    (hinit : (s.w tgt.key).owner ≠ systemId ∨ (s.w tgt.key).data ≠ []) :
+    ((initValidate env ty false tgt fa enc s).2.w tgt.key).owner = (s.w tgt.key).owner ∧
+    ((initValidate env ty false tgt fa enc s).2.w tgt.key).data = (s.w tgt.key).data := by
+  rcases initValidate_shape env ty false tgt fa enc s with ⟨hs, _⟩ | ⟨a, f, -, -, hst, -⟩
+  · rw [hs]; exact ⟨rfl, rfl⟩
+  · rw [hst]
+    have hgo : initAccount env ty false tgt.key f a enc s = initGo env ty tgt.key f a enc s := by
+      simp [initAccount]
+    rw [hgo]
+    unfold initGo
+    split
+    · exact ⟨rfl, rfl⟩
+    · have hk := systemCreateAccount_initialized_keeps env f tgt.key env.program (ty.W + enc.length) a s hinit
+      split
+      · rename_i s1 he
+        have hok : (systemCreateAccount env f tgt.key env.program (ty.W + enc.length) a s).1 = .ok () := by rw [he]
+        obtain ⟨ho, hd⟩ := systemCreateAccount_ok_pre hok
+        rcases hinit with h | h
+        · exact absurd ho h
+        · exact absurd hd h
+      · rename_i e s1 he; rw [he] at hk; exact hk
+      · rename_i s1 he; rw [he] at hk; exact hk
+
 end Account.Init
